@@ -376,6 +376,40 @@ func init() {
 		}
 		// near-duplicate schemas under one Go type name (see neardup.go)
 		pcs = append(pcs, nearDupCases(c, "c02-near-duplicates")...)
+		// integer intervals with ONE exclusive side around every type edge, with and without --min-sized-ints: the two
+		// extreme admitted values (and two inside) are valid documents
+		for _, e := range []int64{126, 127, 128, 254, 255, 256, 32766, 32767, 32768, 65534, 65535, 65536, 2147483647, 2147483648, 4294967295, 4294967296} {
+			for _, lo := range []int64{-129, -1, 0, 1} {
+				for form := 0; form < 4; form++ {
+					node := sgen.M{"type": "integer"}
+					var first, last int64
+					switch form {
+					case 0: // exclusive lower, inclusive upper
+						node["exclusiveMinimum"], node["maximum"] = lo, e
+						first, last = lo+1, e
+					case 1: // inclusive lower, exclusive upper
+						node["minimum"], node["exclusiveMaximum"] = lo, e
+						first, last = lo, e-1
+					case 2: // draft-4 spelling of form 0
+						node["minimum"], node["exclusiveMinimum"], node["maximum"] = lo, true, e
+						first, last = lo+1, e
+					case 3: // draft-4 spelling of form 1
+						node["minimum"], node["maximum"], node["exclusiveMaximum"] = lo, e, true
+						first, last = lo, e-1
+					}
+					schema := sgen.M{"type": "object", "properties": sgen.M{"v": node}, "required": []any{"v"}}
+					docs := []any{M{"v": first}, M{"v": last}, M{"v": first + 1}, M{"v": last - 1}}
+					for _, ms := range []bool{true, false} {
+						if !ms && form >= 2 && (e%2 == 0) && !c.Thorough() {
+							continue
+						}
+						pc := baseCase("c02-valid", schema, docs, "one-exclusive-side", fmt.Sprintf("form=%d min-sized=%v", form, ms))
+						pc.Cfg.MinSizedInts = ms
+						pcs = append(pcs, pc)
+					}
+				}
+			}
+		}
 		res := runCases(c, pcs)
 		crossCheckSpec(c, res)
 		fails := 0
